@@ -60,6 +60,12 @@ os.makedirs(os.path.join(ROOT, "seeded"), exist_ok=True)
 json.dump(dict(results=results), open(os.path.join(ROOT, "seeded", "RESULTS.json"), "w"), indent=1)
 table = "| id | property | change | needs | caught now by | as first built |\n|---|---|---|---|---|---|\n" + "\n".join(rows)
 open(os.path.join(ROOT, "seeded", "TABLE.md"), "w").write(table + "\n")
+dp = os.path.join(ROOT, "DESIGN.md")
+ds = open(dp).read()
+b, e = ds.find("<!-- SEEDED-TABLE-BEGIN -->"), ds.find("<!-- SEEDED-TABLE-END -->")
+if b >= 0 and e > b:
+    ds = ds[:b] + "<!-- SEEDED-TABLE-BEGIN -->\n" + table + "\n" + ds[e:]
+    open(dp, "w").write(ds)
 nconf = sum(1 for r in results if r["confirmed"])
 ncaught = sum(1 for r in results if r["confirmed"] and any(v["caught"] for v in r["checks_quick_tier"].values()))
 nown = sum(1 for r in results if r["confirmed"] and r["checks_quick_tier"].get(r["breaks_property"], {}).get("caught"))
